@@ -49,8 +49,9 @@ def isReserved (n : Nat) (k : Key) : Bool := k == minKey n || k == maxKey n || k
 /-- the tree `NewReadOnly(v)` builds its proofs from (`storeProofTree` on the two prefixes `facts` reads off
 store/store.go on every run) -/
 def readOnlyTree (s : St) (version : Nat) : Trie :=
-  storeProofTree Gen.SmtFacts.rootWritesPrefix Gen.SmtFacts.readOnlyReadsPrefix 160
-    (((s.committed.find? (·.1 == version)).map (·.2)).getD (empty 160))
+  readOnlyServes Gen.SmtFacts.readOnlyBuildsFreshCommitment s.base.cached (version == s.base.version)
+    (storeProofTree Gen.SmtFacts.rootWritesPrefix Gen.SmtFacts.readOnlyReadsPrefix 160
+      (((s.committed.find? (·.1 == version)).map (·.2)).getD (empty 160)))
 
 def step (s : St) (line : String) : St × String :=
   match words line with
